@@ -23,8 +23,8 @@ func vBaseContent(subjectVal, issuer string, serial int64, uid []byte, static bo
 		Alias: "a", Profile: "p", SerialNumber: serial, Issuer: issuer,
 		Subject:      pkix.RDNSequence{pkix.RelativeDistinguishedNameSET{pkix.AttributeTypeAndValue{Type: asn1.ObjectIdentifier{2, 5, 4, 3}, Value: subjectVal}}},
 		KeyAlgorithm: cert.P256, SignatureAlgorithm: cert.ECDSAwithSHA256,
-		Validity:     config.CertificateValidity{From: from, Until: until, IsStatic: static, IsSet: true},
-		Extensions:   exts,
+		Validity:   config.CertificateValidity{From: from, Until: until, IsStatic: static, IsSet: true},
+		Extensions: exts,
 	}
 	if uid != nil {
 		c.IssuerUniqueId = asn1.BitString{Bytes: uid, BitLength: 8 * len(uid)}
